@@ -4662,7 +4662,8 @@ func (r *RoutingPolicy) DeletePolicyAssignment(id string, dir PolicyDirection, p
 
 	if all {
 		r.setPolicy(id, dir, nil)
-		r.setDefaultPolicy(id, dir, ROUTE_TYPE_NONE)
+		// back to the default of a direction that has no configuration
+		r.setDefaultPolicy(id, dir, ROUTE_TYPE_ACCEPT)
 	} else {
 		l := len(cur) - len(ps)
 		if l < 0 {
